@@ -332,7 +332,20 @@ func c15r3(c *Ctx, id string) {
 				}
 			}
 		}
+		// "panics" means on every failure: no way out of the opener under err != nil that is not the panic
+		survives := ""
+		if local {
+			allInstrs(body, func(x ssa.Instruction) {
+				if r, isR := x.(*ssa.Return); isR && x.Parent() == body && !deadBlock(x.Block()) {
+					if !errGuard(r.Block(), true, func(v ssa.Value) bool { return v == ers[0] }) {
+						survives = w.pos(lastPos(r.Block()))
+					}
+				}
+			})
+		}
 		switch {
+		case local && survives != "":
+			c.Fail(id, "opener@"+fname(body), call.Pos(), "an openStream failure is fatal only for some errors: the opener can return (%s) although the open failed — the session starts without that vBucket and nothing re-opens a stream that never opened", survives)
 		case local:
 			c.OK(id, "opener@"+fname(body), call.Pos(), "an openStream error panics inside the opener")
 		case recorded && recordedGuarded && reported(sinks):
